@@ -154,7 +154,10 @@ void eval_factorization(Ctx &x, int opi, const OpSpec &op, long info, bool check
     ld eps = prec_eps(c.prec);
     if (info != 0) {
         if (info < 0) { add_viol(o, primary_property(c.profile), "info_negative", fmt("info=%ld", info), opi); return; }
-        if (info > n) { add_viol(o, primary_property(c.profile), "info_gt_n_without_fault", fmt("info=%ld n=%d", info, n), opi); return; }
+        if (info > n) {
+            if (op.x.lwork > 0) { o.excl["caller_workspace_exhausted"]++; return; }
+            add_viol(o, primary_property(c.profile), "info_gt_n_without_fault", fmt("info=%ld n=%d", info, n), opi); return;
+        }
         if (ri.singular) { o.excl["ref_singular"]++; return; }
         if (ri.cond1 > 0.1L / eps) { o.excl["ill_conditioned_info_gt0"]++; return; }
         add_viol(o, "C01", "info_nonzero_on_nonsingular", fmt("info=%ld cond1=%.3Le", info, ri.cond1), opi, "info_nonzero_on_nonsingular");
@@ -289,6 +292,7 @@ void eval_svx(Ctx &x, int opi, const OpSpec &op, const XOut &xo, const std::vect
     if (ri0.singular) { o.excl["ref_singular"]++; return; }
     if (!(info == 0 || info == n + 1)) {
         if (info > 0 && info <= n && ri0.cond1 > 0.1L / eps) { o.excl["ill_conditioned_info_gt0"]++; return; }
+        if (info > n + 1 && op.x.lwork > 0) { o.excl["caller_workspace_exhausted"]++; return; }
         add_viol(o, "C07", "info_not_0_or_n_plus_1", fmt("info=%ld n=%d cond1=%.3Le", info, n, ri0.cond1), opi); return;
     }
     o.probes["svx_calls_checked"]++;
@@ -500,6 +504,67 @@ void eval_svx(Ctx &x, int opi, const OpSpec &op, const XOut &xo, const std::vect
     }
 }
 
+// C08: pivot reuse.  If every old pivot clearly passes the threshold in a long-double elimination that follows the old row
+// order, perm_r must come back unchanged; if that cannot be decided with a safe margin nothing is asserted.
+void eval_usepr(Ctx &x, int opi, const OpSpec &op, const std::vector<int> &pr_old) {
+    Case &c = x.c; Outcome &o = x.out; int n = c.M.n;
+    std::vector<int> pr = x.drv->get_perm_r(), pc = x.drv->get_perm_c();
+    if (!is_perm(pr_old, n) || !is_perm(pc, n)) { o.excl["usepr_old_perm_unusable"]++; return; }
+    std::vector<cld> vals = x.drv->get_A_values();
+    Dense Md = csc_to_dense(c.M, vals);
+    Dense P(n);
+    for (int i = 0; i < n; ++i) for (int j = 0; j < n; ++j) P.at(pr_old[i], pc[j]) = Md.at(i, j);
+    bool cpx = prec_is_complex(c.prec);
+    auto mag = [&](cld v) { return cpx ? abs1_(v) : absl_(v); };
+    ld u = prec_is_single(c.prec) ? (ld)(float)op.x.u : (ld)op.x.u;
+    ld maxA = 0; for (auto &v : P.a) maxA = std::max(maxA, absl_(v));
+    int verdict = 1; // 1 all clearly pass, 0 unclear, -1 some clearly fails
+    ld maxel = maxA;
+    for (int j = 0; j < n && verdict == 1; ++j) {
+        ld mx = 0; for (int i = j; i < n; ++i) mx = std::max(mx, mag(P.at(i, j)));
+        ld p = mag(P.at(j, j));
+        if (mx == 0) { verdict = 0; break; }
+        if (u > 0) { if (p >= u * mx * (1 + 1e-3L)) {} else if (p < u * mx * (1 - 1e-3L)) verdict = -1; else verdict = 0; }
+        else { if (p > 1e-6L * mx) {} else verdict = 0; }
+        if (verdict != 1) break;
+        cld d = P.at(j, j);
+        for (int i = j + 1; i < n; ++i) { cld l = P.at(i, j) / d; if (l != cld(0, 0)) for (int k = j + 1; k < n; ++k) { P.at(i, k) -= l * P.at(j, k); maxel = std::max(maxel, absl_(P.at(i, k))); } }
+    }
+    // the working-precision values must stay within the margin of the reference ones
+    const RefInfo ri = ref_analyse(Md, false);
+    ld growth = maxA > 0 ? maxel / maxA : 1;
+    bool safe = !ri.singular && ri.cond1 * growth * n * eps_eff(c.prec) <= 1e-5L;
+    if (verdict == 1 && safe) {
+        o.probes["usepr_all_old_pivots_pass"]++;
+        if (pr != pr_old) add_viol(o, "C08", "perm_r_changed_although_old_pivots_pass", fmt("u=%.3g: every old pivot clearly passes the threshold but perm_r was changed", op.x.u), opi);
+    } else if (verdict == -1) { o.probes["usepr_old_pivot_fails"]++; if (pr != pr_old) o.probes["usepr_fell_back_new_perm"]++; }
+    else o.excl["usepr_unclear"]++;
+}
+
+// C08: solve with existing factors through ?gstrs (computational route)
+void eval_gstrs(Ctx &x, int opi, const OpSpec &op, long info, const std::vector<cld> &Bin, uint64_t a_hash0, uint64_t lu_hash0,
+                const std::vector<int> &pr0, const std::vector<int> &pc0) {
+    Case &c = x.c; Outcome &o = x.out; int n = c.M.n;
+    if (info != 0) { add_viol(o, "C08", "gstrs_info", fmt("?gstrs returned info=%ld trans=%d", info, op.x.trans), opi); return; }
+    if (x.drv->A_hash() != a_hash0) add_viol(o, "C08", "A_modified_by_solve", "?gstrs changed A", opi);
+    LUDump d; x.drv->dump_LU(d);
+    if (!d.ok || d.bits_hash != lu_hash0) add_viol(o, "C08", "LU_modified_by_solve", "factors changed by a solve-only call", opi);
+    std::vector<int> pr = x.drv->get_perm_r(), pc = x.drv->get_perm_c();
+    if (pr != pr0 || pc != pc0) add_viol(o, "C08", "perm_modified_by_solve", "permutations changed by a solve-only call", opi);
+    Dense L, U;
+    if (!d.ok || !is_perm(pr, n) || !is_perm(pc, n) || !expand_LU(d, L, U) || !finite_factors(L, U, c.prec)) return;
+    std::vector<cld> X = x.drv->get_B();
+    for (auto &v : X) if (!(absl_(v) < INFINITY)) { o.excl["solution_overflows_precision"]++; return; }
+    Dense Md = csc_to_dense(c.M, x.drv->get_A_values());
+    int t = op.x.trans; Dense Aeff; bool etrans;
+    if (!c.stype_nr) { Aeff = t == 0 ? Md : t == 1 ? transpose(Md) : conj_transpose(Md); etrans = t != 0; }
+    else { Aeff = t == 0 ? transpose(Md) : t == 1 ? Md : conj_dense(Md); etrans = t == 0; }
+    std::vector<std::string> se; ld mr = 0;
+    check_solve(Aeff, etrans, pr, pc, L, U, Bin, X, c.nrhs, c.prec, se, &mr);
+    for (auto &e : se) add_viol(o, "C08", "residual_after_factor_reuse", e, opi);
+    o.probes["factor_reuse_solves_checked"]++;
+}
+
 std::vector<cld> strip_ld(const std::vector<cld> &b, int n, int ldb, int nrhs) {
     std::vector<cld> o((size_t)n * nrhs);
     for (int j = 0; j < nrhs; ++j) for (int i = 0; i < n; ++i) o[(size_t)j * n + i] = b[(size_t)j * ldb + i];
@@ -564,7 +629,9 @@ Outcome run_case(Case &c, const RunnerOpts &ro) {
         if (op.ienv[3] < op.ienv[2]) out.probes["cfg_maxsuper_lt_relax"]++;
         if (prec_is_complex(c.prec) && c.stype_nr && op.x.trans == 2 && (op.kind == OP_GSSVX || op.kind == OP_GSTRS || op.kind == OP_ROUTE)) { g_sig_suffix += "@complex_rowwise_conj"; out.probes["cfg_complex_rowwise_conj"]++; }
         if (op.dyn_snode) setenv("SuperLU_DYNAMIC_SNODE_STORE", "1", 1); else unsetenv("SuperLU_DYNAMIC_SNODE_STORE");
-        if (op.values_id != x.cur_values) { drv.set_values(c.values[op.values_id]); x.cur_values = op.values_id; }
+        bool factorizing = (op.kind == OP_GSSV) || (op.kind == OP_ROUTE) || (op.kind == OP_GSSVX && op.x.fact != 2);
+        // a factorization starts from the caller's matrix (an earlier EQUILIBRATE call may have scaled A in place)
+        if (op.values_id != x.cur_values || factorizing) { drv.set_values(c.values[op.values_id]); x.cur_values = op.values_id; }
         bool first_time = (op.kind == OP_GSSV) || ((op.kind == OP_GSSVX) && op.x.fact != 2 && !op.x.refact) || (op.kind == OP_ROUTE && !op.x.refact);
         if (first_time) drv.set_perm_c(x.base_perm_c);
         const std::vector<cld> &rhs = c.rhs[op.rhs_id < (int)c.rhs.size() ? op.rhs_id : 0];
@@ -572,6 +639,9 @@ Outcome run_case(Case &c, const RunnerOpts &ro) {
         std::vector<cld> Bin = strip_ld(rhs, n, c.ldb, c.nrhs);
         uint64_t a_hash0 = drv.A_hash(), b_hash0 = drv.B_hash(), x_hash0 = drv.X_hash();
         std::vector<cld> A_before = drv.get_A_values();
+        std::vector<int> pr_before = drv.get_perm_r(), pc_before = drv.get_perm_c();
+        uint64_t lu_hash_before = 0;
+        if (drv.have_LU() && (op.kind == OP_GSTRS)) { LUDump d0; drv.dump_LU(d0); lu_hash_before = d0.ok ? d0.bits_hash : 0; }
 
         sim::RunConfig cfg;
         cfg.sched = op.sched; cfg.faults = op.faults; cfg.forced = op.forced; cfg.use_forced = op.use_forced;
@@ -623,8 +693,25 @@ Outcome run_case(Case &c, const RunnerOpts &ro) {
             last_fact_ok = (info == 0) || (op.kind == OP_GSSVX && info == n + 1);
         // ---- oracles
         bool a_same = drv.A_hash() == a_hash0;
-        if (c.profile == "svx" && op.kind == OP_GSSVX) {
+        bool histlike = c.profile == "hist" || c.profile == "leak" || c.profile == "carry";
+        if (op.kind == OP_DESTROY || op.kind == OP_ROUTE_FINALIZE) continue;
+        if ((c.profile == "svx" || histlike) && op.kind == OP_GSSVX) {
+            if (op.x.lwork == -1) continue;
             eval_svx(x, opi, op, xo, A_before, Bin, a_hash0, b_hash0, x_hash0, svx_state);
+            if (op.x.refact && op.x.usepr && (info == 0 || info == n + 1)) eval_usepr(x, opi, op, pr_before);
+            if (op.x.refact) out.probes["refactorizations"]++;
+            if (op.x.fact == 2) out.probes["factored_calls"]++;
+            if (op.x.lwork > 0) { out.probes["user_workspace_calls"]++; if (!xo.work_guard_ok) add_viol(out, "C14", "workspace_guard_overwritten", "bytes outside the caller workspace were modified", opi); if (!xo.lu_inside_work) add_viol(out, "C14", "LU_outside_workspace", "outside the caller workspace: " + xo.lu_outside_which, opi); }
+            continue;
+        }
+        if (histlike && op.kind == OP_GSTRS) { eval_gstrs(x, opi, op, info, Bin, a_hash0, lu_hash_before, pr_before, pc_before); continue; }
+        if (histlike && op.kind == OP_ROUTE) {
+            if (!a_same) add_viol(out, "C08", "A_modified", "factorization changed A", opi);
+            if (info <= -900) add_viol(out, "C01", "gstrs_info", fmt("?gstrs returned info=%ld", info + 1000), opi);
+            else { std::vector<cld> X = drv.get_B(); eval_factorization(x, opi, op, info, op.do_solve && info == 0, Bin, X, op.x.trans, !op.x.usepr); }
+            if (op.x.refact && op.x.usepr && info == 0) eval_usepr(x, opi, op, pr_before);
+            if (op.x.refact) out.probes["refactorizations"]++;
+            if (op.x.lwork > 0) out.probes["user_workspace_calls"]++;
             continue;
         }
         if (c.profile == "sing") {
